@@ -18,6 +18,7 @@ Require RV.Proofs.LinesProofs RV.Proofs.QpProofs RV.Proofs.TextProofs RV.Proofs.
 Require Import RV.Model.UidAssign.
 Require Import RV.Model.Codec.
 Require RV.Gen.C14EncSites.
+Require RV.Proofs.C14Compose.
 Open Scope N_scope.
 
 (* ---------------------------------------------------------------------------------------------------------------
@@ -393,3 +394,75 @@ Theorem C14_generated_uid_always_add_refuted :
   uid_values (assign_uid [120] card) = [[120]].
 Proof. exact UidAssignProofs.assign_uid_always_add_refuted. Qed.
 Print Assumptions C14_generated_uid_always_add_refuted.
+
+(* ---------------------------------------------------------------------------------------------------------------
+   The stages of the upload pipeline compose (Proofs/C14Compose.v) -- what was missing for C14_fixed_point_full.
+
+   C14_put_stages_commute: whatever tree the upload reader built, after value codecs -> clean-ups -> vobject's ordering
+   the result is left unchanged by EACH of the three stages again: the clean-ups do not take values out of codec form
+   (the converted EXDATE/RDATE lines are raw-valued), the ordering does not take values out of codec form nor make a
+   clean-up applicable again (it is stable within a property name, so the reference DTSTART, the DTEND/DURATION pair
+   and every EXDATE/RDATE line are the same), and the ordering is idempotent.  Two side conditions on the upload,
+   both needed: no multi-TEXT value that is still unstable after one pass (CATEGORIES:a,, -- refuted below), and no
+   DTSTART whose VALUE parameter contradicts its value (C14_cleanups_side_condition_needed). *)
+Theorem C14_put_stages_commute : forall x y,
+  C14Compose.multi_stable [] x = true ->
+  CleanupProofs.dtstart_consistent (canon_values [] x) = true ->
+  sanitize (canon_values [] x) = Some y ->
+  let z := canon_node y in
+  canon_values [] z = z /\ sanitize z = Some z /\ canon_node z = z.
+Proof. exact C14Compose.put_stages_commute. Qed.
+Print Assumptions C14_put_stages_commute.
+
+(* C14_put_output_normal.  FULL STATEMENT (false, see the two counterexamples below):
+     forall s s', put_model s = Some s' -> exists z, s' = print_node [] z /\ normal_form z.
+   PROVED with the side condition C14Compose.put_side_ok, a computable predicate of the uploaded text: the two
+   conditions above, and -- CHECKED, not derived, on the tree that is printed, with the parameters sorted as print_cl
+   writes them (z below is that tree: the one the next read builds) --: every line well-formed (name characters, non-empty
+   parameter values without DQUOTE: outside the known class C14:empty-param, no line break), no long vCard PHOTO line
+   (vobject never folds it), no control character / data: prefix left in the text, no quoted-printable, outside the known
+   class C14:fold-ws.  DERIVED (Proofs/C14Compose.v): the tree is one component with upper-case component names (4c/6c:
+   build, and every stage keeps it); the reference DTSTARTs stay consistent (4b); distinct parameter names follow from the
+   line check (6d); the three stages are blind to the order of distinctly named parameters and so is printing (6b).
+   checks/C14.py evaluates the predicate by vm_compute on every stored text of the put_model stream (suite
+   `stored_normal`) and requires it to hold outside the three documented classes. *)
+Theorem C14_put_output_normal : forall s s',
+  put_model s = Some s' -> C14Compose.put_side_ok s = true ->
+  exists z, s' = print_node [] z /\ FixedPointProofs.normal_form z /\ read_cleanup s' = s' /\
+            Forall (fun l => mentions_qp (print_cl l) = false) (flatten z) /\ no_ws_only_lines s'.
+Proof. exact C14Compose.put_output_normal. Qed.
+Print Assumptions C14_put_output_normal.
+
+(* store once = store twice: what the server stored is accepted again and gives the same octets (same ETag), and is
+   what a reload after a cache loss serves *)
+Theorem C14_put_idempotent : forall s s',
+  put_model s = Some s' -> C14Compose.put_side_ok s = true -> put_model s' = Some s'.
+Proof. exact C14Compose.put_idempotent. Qed.
+Print Assumptions C14_put_idempotent.
+Theorem C14_put_then_reload : forall s s',
+  put_model s = Some s' -> C14Compose.put_side_ok s = true ->
+  C14Final.served_text (C14Final.mkStored s' None) = Some s'.
+Proof. exact C14Compose.put_then_reload. Qed.
+Print Assumptions C14_put_then_reload.
+
+(* not vacuous: an upload on which every stage acts (reordering, zero DURATION dropped, EXDATE converted with VALUE=DATE
+   appended after X-A, TEXT escaped, parameters sent unsorted) meets the side condition, is changed by the pipeline, and its stored text is a fixed point *)
+Theorem C14_put_idempotent_nonvacuous :
+  C14Compose.put_side_ok C14Compose.ComposeExamples.busy = true /\
+  exists s', put_model C14Compose.ComposeExamples.busy = Some s' /\ eqs s' C14Compose.ComposeExamples.busy = false /\
+             put_model s' = Some s'.
+Proof. exact C14Compose.put_side_ok_nonvacuous. Qed.
+Print Assumptions C14_put_idempotent_nonvacuous.
+
+(* the side condition is needed: `CATEGORIES:a,,` is stored as `a,` and stored again as `a` (observed on the real
+   pipeline as well; input outside the generator grammar); `CN=""` is the known class C14:empty-param *)
+Theorem C14_put_idempotent_side_condition_needed :
+  C14Compose.put_side_ok C14Compose.ComposeExamples.trailing = false /\
+  exists s1 s2, put_model C14Compose.ComposeExamples.trailing = Some s1 /\ put_model s1 = Some s2 /\ eqs s1 s2 = false.
+Proof. exact C14Compose.put_idempotent_side_condition_needed. Qed.
+Print Assumptions C14_put_idempotent_side_condition_needed.
+Theorem C14_put_idempotent_empty_param_refuted :
+  C14Compose.put_side_ok C14Compose.ComposeExamples.empty_param = false /\
+  exists s1 s2, put_model C14Compose.ComposeExamples.empty_param = Some s1 /\ put_model s1 = Some s2 /\ eqs s1 s2 = false.
+Proof. exact C14Compose.put_idempotent_empty_param_needed. Qed.
+Print Assumptions C14_put_idempotent_empty_param_refuted.
